@@ -180,4 +180,26 @@ def runRview3 (kv : List (String × String)) : String := Id.run do
   let tev := digFp 0 (pos.flatMap fun as => if as.getD 2 0 + V ≤ p2 then tevalV data it V dims as else [])
   return s!"route=flat3:into-3d-view:{if p2 < V then "no-vector-call" else "vector-call"} V={V} VAL={hex (digFp 0 mem)} NW={p0 * p1 * p2} TES={hex tes} TEV={hex tev}"
 
+def runFview3 (kv : List (String × String)) : String := Id.run do
+  let some cfgName := getS kv "cfg" | return "bad-op"
+  let some cfg := Cfg.ofName cfgName | return "bad-op"
+  let some sz := getN kv "sz" | return "bad-op"
+  let some d0 := getN kv "d0" | return "bad-op"
+  let some d1 := getN kv "d1" | return "bad-op"
+  let some d2 := getN kv "d2" | return "bad-op"
+  let some ms := getS kv "mask" | return "bad-op"
+  let bits := ms.toList.map (· == '1')
+  let mask : Nat → Bool := fun i => bits.getD i false
+  let V := cfg.native.lanes sz
+  let data : Nat → Fp := fun p => Fp.ofTok 1 p
+  let dims := [d0, d1, d2]
+  let b1 := d1 + 1; let b2 := d2 + 2
+  let mem := (List.range ((d0 + 1) * b1 * b2)).map fun q =>
+    let x := q / (b1 * b2); let y := q / b2 % b1; let z := q % b2
+    if x < d0 && y < d1 && z < d2 then ftevalS data mask dims [x, y, z] else Fp.ofTok 0 q
+  let pos := (List.range d0).flatMap fun x => (List.range d1).flatMap fun y => (List.range d2).map fun z => [x, y, z]
+  let tes := digFp 0 (pos.map fun as => ftevalS data mask dims as)
+  let tev := digFp 0 (pos.flatMap fun as => if as.getD 2 0 + V ≤ d2 then ftevalV data mask V dims as else [])
+  return s!"route=mask:into-3d-view:{if d2 < V then "no-vector-call" else "vector-call"} V={V} VAL={hex (digFp 0 mem)} NW={d0 * d1 * d2} TES={hex tes} TEV={hex tev}"
+
 end Fastor.Driver
